@@ -351,6 +351,13 @@ func (e *endpoint) Write(b []byte) (int, error) {
 	if closed {
 		return 0, e.opErr("write", net.ErrClosed)
 	}
+	e.mu.Lock()
+	wdl := e.wdl
+	e.mu.Unlock()
+	if !wdl.IsZero() && !time.Now().Before(wdl) {
+		// as on a real socket: a write with an expired write deadline fails at once, whatever the buffers hold
+		return 0, e.opErr("write", os.ErrDeadlineExceeded)
+	}
 	c, n := e.c, e.c.n
 	q := e.out
 	inReset := e.in.isReset() // (never two stream locks at once: the peer's Write takes them in the other order)
